@@ -390,6 +390,16 @@ NP[('np', 'tril')] = _tri('tril')
 NP[('np', 'triu')] = _tri('triu')
 
 
+@np_fn('ndindex')
+def np_ndindex(it, *shape):
+    if len(shape) == 1 and isinstance(shape[0], (tuple, list)):
+        shape = tuple(shape[0])
+    shape = tuple(conc(d) for d in shape)
+    if not all(isinstance(d, int) for d in shape):
+        raise Unsupported('np.ndindex over a symbolic shape')
+    return [tuple(i) for i in np.ndindex(*shape)]        # C order
+
+
 @np_fn('ix_')
 def np_ix_(it, *seqs):
     """open mesh from 1-D index sequences (numpy's own construction on concrete indices; a symbolic boolean mask is case-split first)"""
@@ -563,6 +573,8 @@ def np_iscomplexobj(it, a):
         if a.tag == 'sparse':
             return kind_of(a.fields['dense']) == 'complex'
         raise Unsupported('iscomplexobj of object')
+    if a is None or isinstance(a, (str, list, tuple, dict)) and not a:
+        return False                      # numpy: objects without a complex dtype / type are not complex
     return kind_of(a) == 'complex'
 
 
